@@ -196,6 +196,7 @@ func (q *PriorityQueue) PopAtTimestamp(timestamp uint32) (*rtp.Packet, error) {
 func (q *PriorityQueue) Clear() {
 	next := q.next
 	q.length = 0
+	q.next = nil
 	for next != nil {
 		next.prev = nil
 		next = next.next
